@@ -15,7 +15,8 @@ EXPLANATION = (
     "literal is guarded at MIN_INTEGER / MIN_LONG, and (R5, interval dataflow) every integer literal "
     "built by arithmetic in the parser stays inside the range of its literal type. (R6) a unary operator is pushed down the whole left spine of the chain it precedes; (R7) the parser never narrows an f64 to f32, so a SINGLE literal is rounded once, from its text; (R8) the operand of a unary or keyword operator is parsed as a whole expression also when it starts with `(` (the parenthesis-only parser is used by the list of primaries only; shared with C09.R14)."
     " (R9) a literal whose text spells a number beyond the range of its type is an error: the parser tests the parsed float with is_finite (shared with C06.R14); the Overflow exit of the decimal converter is accepted only on the not-finite side of that test."
-    " (R10) binary_expr is interpreted on every chain of three operators (one per precedence level, the right side built by the same function) and the tree compared with the one the ranks prescribe, modulo the associativity of AND / OR.")
+    " (R10) binary_expr is interpreted on every chain of three operators (one per precedence level, the right side built by the same function) and the tree compared with the one the ranks prescribe, modulo the associativity of AND / OR."
+    " (R11) the fold of a unary minus into its literal rewrites the whole tree: wherever it rebuilds a node with operands, every operand of the new node is the rewrite of the old one, on every path.")
 NOT_DECIDED = [
     "that the binary rotation groups chains of four or more operators correctly (the unary rotation is decided on two-level chains, C10.R6)",
     "the numeric thresholds and the exact value a literal denotes (value-level)",
@@ -576,6 +577,52 @@ def r10_binary_chains(ctx, rule="C10.R10"):
     ctx.require(rule, 100)
 
 
+def r11_minus_folding_walks_the_whole_tree(ctx, rule="C10.R11"):
+    """`-32768` and `-&H8000` are literals: the parser folds a unary minus into the literal behind it, wherever in the tree
+    the rotation of the operators has left the minus.  The fold is a recursive rewrite of the tree; wherever it rebuilds a
+    node that has operands (a binary or unary expression, a parenthesis), each operand it puts into the new node is the
+    result of the rewrite applied to the old operand - on every path, whatever the operand looks like.  An operand
+    carried over as it is hides every minus below it (`-&H8000 + 1 - 1`: the minus ends up two levels down the left
+    spine and is applied at run time to a value that has no positive counterpart)."""
+    prog = ctx.prog
+    try:
+        f = prog.method("Expression", "simplify_unary_minus_literals")
+    except KeyError as e:
+        raise CheckError("%s: anchor %s" % (rule, e))
+    family = {f.name}
+    for g in prog.methods_of("Expression"):
+        if any((t.get("res") or mir.callee_of(t)) == f.id for _b, t in g.body.calls()):
+            family.add(g.name)
+    family |= {"unary_minus"}
+    body = f.body
+    pv = mir.Prov(body)
+    n = 0
+    for b, blk in enumerate(body.blocks):
+        if blk.get("c"):
+            continue
+        for st in blk["s"]:
+            r = st.get("r", {})
+            if st["k"] != "assign" or r.get("k") != "agg" or not (r.get("adt") or "").endswith("::Expression"):
+                continue
+            if r.get("variant") not in ("BinaryExpression", "UnaryExpression", "Parenthesis"):
+                continue
+            for i, o in enumerate(r["ops"]):
+                pl = mir.op_place(o)
+                if pl is None or "Box<" not in body.locals[pl[0]]["ty"] or "Expression" not in body.locals[pl[0]]["ty"]:
+                    continue
+                n += 1
+                org = pv.of_operand(o)
+                base = mir.strip_all(org)
+                ok = base[0] == "call" and str(base[1]).split("::")[-1] in family
+                ctx.decide(ok, rule, "%s:%s:operand%d" % (rule, r["variant"], i), "%s:%s" % (f.file, st.get("ln")),
+                           "operand = %s(old operand)" % (str(base[1]).split("::")[-1] if base[0] == "call" else "?"),
+                           "simplify_unary_minus_literals rebuilds a %s whose operand %d is %s, not the rewrite of the old operand on "
+                           "every path: a unary minus below it is never folded into its literal, so `-&H8000 + 1 - 1` negates 32768 "
+                           "at run time (Overflow) instead of reading the literal -32768" % (r["variant"], i, mir.show_origin(org)[:70]))
+    ctx.analysed_units(rule, rebuilt_operands=n, rewrite_family=sorted(family))
+    ctx.require(rule, 4)
+
+
 def run(ctx):
     common.install(ctx)
     eng = tf.Engine(ctx.prog)
@@ -593,5 +640,6 @@ def run(ctx):
     # a literal whose text spells a number beyond the range of its type is an error, not an infinity
     c06.r14_floats_from_outside_are_finite(ctx, "C10.R9", crate="rusty_parser", module="::expr::", floor=2)
     r10_binary_chains(ctx)
+    r11_minus_folding_walks_the_whole_tree(ctx)
     if eng.imprecise:
         ctx.notes.append("abstract interpreter imprecision: %s" % eng.imprecise[:5])
